@@ -14,7 +14,7 @@ ASSUMPTIONS = [LEVEL_NOTE, "HOME is empty"]
 
 
 def plan(tier):
-    return {"n": 300 if tier == "quick" else 6000, "floor": 80 if tier == "quick" else 1500}
+    return {"n": 300 if tier == "quick" else 1200, "floor": 80 if tier == "quick" else 300}
 
 
 def rule(tier):
